@@ -154,6 +154,8 @@ func runC20(r *Run) {
 	r.rule("C20.R6", "epoch-end statistics: selection predicate, grouping key, signer list, difference, one write per group", 12)
 	r.rule("C20.R7", "who-may-write: each AVS family has exactly its named direct writer(s)", 8)
 	r.rule("C20.R8", "key-constructor role order agrees between the writer and the readers of task, result and challenge records", 8)
+	iteratorVisitsAllRule(r, "C20.R1", map[string]bool{"x/avs/keeper.Keeper.IterateAVSInfo": true})
+	iteratorVisitsAllRule(r, "C20.R6", map[string]bool{"x/avs/keeper.Keeper.IterateTaskAVSInfo": true, "x/avs/keeper.Keeper.IterateResultInfo": true})
 
 	avs := "x/avs/keeper"
 	var curV *FnView // the function under analysis (for argIs)
